@@ -33,6 +33,7 @@ OpsClauses(e) ==
       <<"numeric-when-both-numeric-else-text", c3 # "free" => \A o \in Ops : e.ops[o] = OpHolds(o, c3)>>  >>
 EquivClauses(e) ==
   <<  <<"variable-interchangeable-with-definition", e.law = "inline" => e.a = e.b>>,
+      <<"same-query-same-result-when-the-compiled-query-is-used-again", e.law = "engine-reuse" => e.a = e.b>>,
       <<"combine-doubles-length", e.law = "combine-length" => ((e.a.t = "int" /\ e.b.t = "int" /\ e.a.n = 2 * e.b.n) \/ (e.a.t = "err" /\ e.b.t = "err"))>>,
       <<"only-and-its-negation-partition", e.law = "only-partition" =>
             (IF IsList(e.a) /\ IsList(e.b) /\ IsList(e.c) THEN Partitions(e.c.v, e.a.v, e.b.v)
